@@ -971,6 +971,8 @@ def run(ctx):
 
 
 def replay(obj):
+    if obj.get("kind") in ("no-failing-input-found", "correspondence") or obj.get("correspondence"):
+        return vlib.replay_correspondence(obj)
     r = obj.get("replay", obj)
     print(json.dumps(obj, indent=1, ensure_ascii=False)[:6000])
     if r.get("op") == "err_tree":
